@@ -7,6 +7,111 @@ Dropped (still assumed): the `while let` / `match record` dispatch, `records.pee
 R10: `continue` => `return` inside a region that is the rest of the loop body."""
 import re
 from vf.unit import Unit, Fragment, AnchorLost
+
+ABS = r"""
+// ---- abstract view of the writer's collection state: per-key sequences instead of BTreeMaps of Vecs ----
+pub struct ACip<'d> {
+    pub name: &'d str, pub class: Class,
+    pub members: spec_fn(&'d str) -> Seq<Member>, pub by: spec_fn((&'d str, &'d str)) -> Seq<Member>,
+    pub seen: Set<(&'d str, &'d str, &'d str)>,
+}
+pub struct AWState<'d> { pub done: Map<&'d str, ACip<'d>>, pub cur: ACip<'d> }
+pub open spec fn abs_cip<'d>(c: ClassInProgress<'d>) -> ACip<'d> {
+    ACip { name: c.name, class: c.class, members: |k: &'d str| vec_at(c.members, k), by: |k: (&'d str, &'d str)| vec_at(c.members_by_params, k), seen: c.unique_methods@ }
+}
+pub open spec fn abs_done<'d>(m: Map<&'d str, ClassInProgress<'d>>) -> Map<&'d str, ACip<'d>> { m.map_values(|c: ClassInProgress<'d>| abs_cip(c)) }
+pub open spec fn off32(t: StringTable, s: Seq<char>) -> u32 { offset_of(t, s)->0 as u32 }
+pub open spec fn inc(x: u32) -> u32 { (x + 1) as u32 }
+pub open spec fn fresh_cip<'d>() -> ACip<'d> {
+    ACip { name: "", class: Class { obfuscated_name_offset: absent(), original_name_offset: absent(), file_name_offset: absent(),
+                members_offset: absent(), members_len: 0, members_by_params_offset: absent(), members_by_params_len: 0 },
+           members: |k: &'d str| Seq::<Member>::empty(), by: |k: (&'d str, &'d str)| Seq::<Member>::empty(), seen: Set::empty() }
+}
+// In the three step functions `tf` is the string table AFTER the record was processed: offsets are whatever the table assigned
+// (the order of interning is not specified), they only have to be the offsets of the record's strings in `tf`.
+pub open spec fn w_header<'d>(tf: StringTable, cur: ACip<'d>, key: &'d str, file_name: &'d str) -> ACip<'d> {
+    if key@ == "sourceFile"@ { ACip { class: Class { file_name_offset: off32(tf, file_name@), ..cur.class }, ..cur } } else { cur }
+}
+pub open spec fn w_class<'d>(tf: StringTable, original: &'d str, obfuscated: &'d str) -> ACip<'d> {
+    ACip { name: obfuscated, class: Class { original_name_offset: off32(tf, original@), obfuscated_name_offset: off32(tf, obfuscated@), ..fresh_cip::<'d>().class }, ..fresh_cip() }
+}
+// the strings of a record are in the table after it was processed, and nothing that was in the table moved
+pub open spec fn table_grew(t0: StringTable, tf: StringTable, ss: Seq<Seq<char>>) -> bool {
+    (forall|i: int| 0 <= i < ss.len() ==> offset_of(tf, #[trigger] ss[i]) is Some)
+    && (forall|x: Seq<char>| #[trigger] offset_of(t0, x) is Some ==> offset_of(tf, x) == offset_of(t0, x))
+}
+pub open spec fn w_method<'d>(tf: StringTable, cur: ACip<'d>, lm: Option<LineMapping>, obfuscated: &'d str, original: &'d str, original_class: Option<&'d str>,
+        arguments: &'d str, next: Option<&ProguardRecord<'d>>) -> ACip<'d> {
+    let m = stored_member(lm, tf, obfuscated, original, original_class, arguments, cur.class.file_name_offset);
+    let indexed = !is_inlined_callee(lm, next);
+    let fresh = indexed && !cur.seen.contains((obfuscated, arguments, original));
+    ACip {
+        class: Class { members_len: inc(cur.class.members_len), members_by_params_len: if fresh { inc(cur.class.members_by_params_len) } else { cur.class.members_by_params_len }, ..cur.class },
+        members: |k: &'d str| if k == obfuscated { (cur.members)(k).push(m) } else { (cur.members)(k) },
+        by: |k: (&'d str, &'d str)| if fresh && k == (obfuscated, arguments) { (cur.by)(k).push(m) } else { (cur.by)(k) },
+        seen: if indexed { cur.seen.insert((obfuscated, arguments, original)) } else { cur.seen },
+        ..cur
+    }
+}
+pub open spec fn w_flush<'d>(done: Map<&'d str, ACip<'d>>, cur: ACip<'d>) -> Map<&'d str, ACip<'d>> {
+    if cur.name@.len() > 0 { done.insert(cur.name, cur) } else { done }
+}
+pub open spec fn w_step<'d>(s: AWState<'d>, tf: StringTable, rec: ProguardRecord<'d>, next: Option<&ProguardRecord<'d>>) -> AWState<'d> {
+    match rec {
+        ProguardRecord::Header { key, value: Some(file_name) } => AWState { cur: w_header(tf, s.cur, key, file_name), ..s },
+        ProguardRecord::Class { original, obfuscated } => AWState { done: w_flush(s.done, s.cur), cur: w_class(tf, original, obfuscated) },
+        ProguardRecord::Method { ty, original, obfuscated, arguments, original_class, line_mapping } =>
+            AWState { cur: w_method(tf, s.cur, line_mapping, obfuscated, original, original_class, arguments, next), ..s },
+        _ => s,
+    }
+}
+// the strings a record interns
+pub open spec fn strings_of<'d>(rec: ProguardRecord<'d>) -> Seq<Seq<char>> {
+    match rec {
+        ProguardRecord::Header { key, value: Some(file_name) } => if key@ == "sourceFile"@ { seq![file_name@] } else { Seq::empty() },
+        ProguardRecord::Class { original, obfuscated } => seq![obfuscated@, original@],
+        ProguardRecord::Method { ty, original, obfuscated, arguments, original_class, line_mapping } =>
+            match original_class { Some(c) => seq![obfuscated@, original@, arguments@, c@], None => seq![obfuscated@, original@, arguments@] },
+        _ => Seq::empty(),
+    }
+}
+pub open spec fn next_of<'d>(recs: Seq<ProguardRecord<'d>>, n: int) -> Option<&ProguardRecord<'d>> { if 0 <= n < recs.len() { Some(&recs[n]) } else { None } }
+// the collection state after the first n records; ts[i] is the string table after i records
+pub open spec fn w_run<'d>(ts: Seq<StringTable>, recs: Seq<ProguardRecord<'d>>, n: int) -> AWState<'d>
+    decreases n
+{
+    if n <= 0 { AWState { done: Map::empty(), cur: fresh_cip() } } else { w_step(w_run(ts, recs, n - 1), ts[n], recs[n - 1], next_of(recs, n)) }
+}
+pub open spec fn tables_ok<'d>(ts: Seq<StringTable>, recs: Seq<ProguardRecord<'d>>, n: int) -> bool {
+    ts.len() == n + 1 && forall|i: int| 1 <= i <= n ==> table_grew(#[trigger] ts[i - 1], ts[i], strings_of(recs[i - 1]))
+}
+pub proof fn lemma_run_prefix<'d>(ts: Seq<StringTable>, t: StringTable, recs: Seq<ProguardRecord<'d>>, k: int)
+    requires 0 <= k < ts.len(),
+    ensures w_run(ts.push(t), recs, k) == w_run(ts, recs, k),
+    decreases k,
+{ if k > 0 { lemma_run_prefix(ts, t, recs, k - 1); assert(ts.push(t)[k] == ts[k]); } }
+pub proof fn lemma_tables_push<'d>(ts: Seq<StringTable>, t: StringTable, recs: Seq<ProguardRecord<'d>>, n: int)
+    requires n >= 1, tables_ok(ts, recs, n - 1), table_grew(ts[n - 1], t, strings_of(recs[n - 1])),
+    ensures tables_ok(ts.push(t), recs, n),
+{
+    let ts2 = ts.push(t);
+    assert forall|i: int| 1 <= i <= n implies table_grew(#[trigger] ts2[i - 1], ts2[i], strings_of(recs[i - 1])) by {
+        if i < n { assert(ts2[i - 1] == ts[i - 1] && ts2[i] == ts[i]); } else { assert(ts2[i - 1] == ts[n - 1] && ts2[i] == t); }
+    }
+}
+pub proof fn lemma_acip_ext<'d>(a: ACip<'d>, b: ACip<'d>)
+    requires a.name == b.name, a.class == b.class, a.seen == b.seen,
+        forall|k: &'d str| #[trigger] (a.members)(k) == (b.members)(k), forall|k: (&'d str, &'d str)| #[trigger] (a.by)(k) == (b.by)(k),
+    ensures a == b,
+{ assert(a.members =~= b.members); assert(a.by =~= b.by); }
+pub proof fn lemma_abs_done_insert<'d>(m: Map<&'d str, ClassInProgress<'d>>, k: &'d str, c: ClassInProgress<'d>)
+    ensures abs_done(m.insert(k, c)) == abs_done(m).insert(k, abs_cip(c)),
+{ assert(abs_done(m.insert(k, c)) =~= abs_done(m).insert(k, abs_cip(c))); }
+pub proof fn lemma_abs_done_empty<'d>()
+    ensures abs_done(Map::<&'d str, ClassInProgress<'d>>::empty()) == Map::<&'d str, ACip<'d>>::empty(),
+{ assert(abs_done(Map::<&'d str, ClassInProgress<'d>>::empty()) =~= Map::<&'d str, ACip<'d>>::empty()); }
+"""
+
 from .common import HEADER, FOOTER, contract, extract_struct, extract_struct_priv
 
 
@@ -91,7 +196,7 @@ fn shim_btree_or_insert<'d>(m: &mut BTreeMap<&'d str, ClassInProgress<'d>>, k: &
 // `..Default::default()` of the derived Default for ClassInProgress: empty name / maps / set and a default class record
 #[verifier::external_body]
 fn shim_default_cip<'d>() -> (r: ClassInProgress<'d>)
-    ensures r.name@.len() == 0, r.class == (Class { obfuscated_name_offset: absent(), original_name_offset: absent(), file_name_offset: absent(),
+    ensures r.name@.len() == 0, r.name == "", r.class == (Class { obfuscated_name_offset: absent(), original_name_offset: absent(), file_name_offset: absent(),
                 members_offset: absent(), members_len: 0, members_by_params_offset: absent(), members_by_params_len: 0 }),
             bmap(r.members) == Map::<&str, Vec<Member>>::empty(), bmap(r.members_by_params) == Map::<(&str, &str), Vec<Member>>::empty(),
             flat(vals(r.members)).len() == 0, flat(vals(r.members_by_params)).len() == 0,
@@ -122,7 +227,7 @@ pub open spec fn stored_member(lm: Option<LineMapping>, t: StringTable, obfuscat
         params_offset: offset_of(t, arguments@)->0 as u32,
     }
 }
-""", "model")
+""" + ABS, "model")
 
     wf = raw.impl_fn(r"impl<'data> ProguardCache<'data>", "write")
     # ---------------- Method arm ----------------
@@ -132,7 +237,8 @@ pub open spec fn stored_member(lm: Option<LineMapping>, t: StringTable, obfuscat
     r.contracted = True
     r.props_all = ["C02", "C03", "C09", "C01"]
     r.props_safety = ["C13"]
-    r.replace_all_re(r"\bcontinue;", "return;", "R10", why="the region is the rest of the loop body: `continue` == return from the region", min_count=0)
+    MABS = "proof { lemma_acip_ext(abs_cip(*current_class), w_method(*string_table, abs_cip(cc0_), line_mapping, obfuscated, original, original_class, arguments, next)); }"
+    r.replace_all_re(r"\bcontinue;", MABS + " return;", "R10", why="the region is the rest of the loop body: `continue` == return from the region", min_count=0)
     r.replace_all_re(r"records\.peek\(\)", "next", "R5", why="unreachable iterator state `records.peek()` becomes a parameter of the region", min_count=0)
     r.replace_all_re(r"current_class\s*\.members\s*\.entry\(obfuscated\)\s*\.or_default\(\)\s*\.push\((.+?)\);", r"shim_btree_push(&mut current_class.members, obfuscated, \1);", "R2",
                      why="BTreeMap entry API behind a shim (assumed: appends to the key's vector, creating it if absent)", min_count=0)
@@ -145,7 +251,7 @@ pub open spec fn stored_member(lm: Option<LineMapping>, t: StringTable, obfuscat
     r.closure("|l|", params="|l: usize|", ret="r: u32", spec="ensures r == ({body})")
     r.replace_all_re(r"original_class\.map_or\(u32::MAX, \|class_name\| \{\s*string_table\.insert\(class_name\) as u32\s*\}\)", "shim_insert_opt(string_table, original_class)", "R2",
                      why="closure capturing `&mut string_table` (unsupported by Verus): Option::map_or(u32::MAX, |c| string_table.insert(c) as u32) behind a shim", min_count=0)
-    r.insert_at(0, "proof { axiom_key_models(); }\n        broadcast use group_hash_axioms;\n        ")
+    r.insert_at(0, "proof { axiom_key_models(); }\n        broadcast use group_hash_axioms;\n        let ghost t0_ = *string_table; let ghost cc0_ = *current_class;\n        ")
     u.emit(r, prefix="""fn region_writer_method_arm<'d>(line_mapping: Option<LineMapping>, string_table: &mut StringTable, current_class: &mut ClassInProgress<'d>,
         obfuscated: &'d str, original: &'d str, original_class: Option<&'d str>, arguments: &'d str, next: Option<&ProguardRecord<'d>>)
     requires
@@ -168,8 +274,12 @@ pub open spec fn stored_member(lm: Option<LineMapping>, t: StringTable, obfuscat
             && final(current_class).class.obfuscated_name_offset == old(current_class).class.obfuscated_name_offset
             && final(current_class).class.original_name_offset == old(current_class).class.original_name_offset
             && final(current_class).class.file_name_offset == old(current_class).class.file_name_offset,
+        /*@L:method_record_is_one_step_of_the_abstract_writer:C02,C03,C09,C01*/ abs_cip(*final(current_class))
+            == w_method(*final(string_table), abs_cip(*old(current_class)), line_mapping, obfuscated, original, original_class, arguments, next),
+        /*@L:method_strings_are_interned:C09*/ offset_of(*final(string_table), obfuscated@) is Some && offset_of(*final(string_table), original@) is Some
+            && offset_of(*final(string_table), arguments@) is Some && (original_class is Some ==> offset_of(*final(string_table), original_class->0@) is Some),
 {
-""", suffix="\n}\n")
+""", suffix="\n        " + MABS + "\n}\n")
     # ---------------- Class arm ----------------
     a2, b2 = wf.arm_body(r"ProguardRecord::Class\s*\{[^}]*\}")
     r2 = Fragment(u, wf.file, raw.src, wf.start + a2, wf.start + b2, "region", "class-arm")
@@ -197,9 +307,12 @@ pub open spec fn stored_member(lm: Option<LineMapping>, t: StringTable, obfuscat
             && offset_of(*final(string_table), original@) is Some && ret.class.original_name_offset == offset_of(*final(string_table), original@)->0 as u32,
         /*@L:finished_class_is_stored_under_its_obfuscated_name_last_one_wins:C04,C09*/ bmap(*final(classes))
             == (if current_class.name@.len() > 0 { bmap(*old(classes)).insert(current_class.name, current_class) } else { bmap(*old(classes)) }),
+        /*@L:class_record_is_one_step_of_the_abstract_writer:C02,C03,C09*/ abs_cip(ret) == w_class(*final(string_table), original, obfuscated),
+        forall|x: Seq<char>| #[trigger] offset_of(*old(string_table), x) is Some ==> offset_of(*final(string_table), x) == offset_of(*old(string_table), x),
 {
+    let ghost t0_ = *string_table;
     let mut current_class = current_class;
-""", suffix="\n    current_class\n}\n")
+""", suffix="\n    proof { lemma_acip_ext(abs_cip(current_class), w_class(*string_table, original, obfuscated)); }\n    current_class\n}\n")
 
     # ---------------- Header arm ----------------
     a3, b3 = wf.arm_body(r"ProguardRecord::Header\s*\{[^}]*\}")
@@ -217,8 +330,11 @@ pub open spec fn stored_member(lm: Option<LineMapping>, t: StringTable, obfuscat
         wf_cip(*old(current_class)) ==> wf_cip(*final(current_class)),
         final(current_class).name == old(current_class).name && final(current_class).unique_methods == old(current_class).unique_methods,
         final(current_class).class.members_len == old(current_class).class.members_len && final(current_class).class.members_by_params_len == old(current_class).class.members_by_params_len,
+        /*@L:header_record_is_one_step_of_the_abstract_writer:C01,C09,C02*/ abs_cip(*final(current_class)) == w_header(*final(string_table), abs_cip(*old(current_class)), key, file_name),
+        forall|x: Seq<char>| #[trigger] offset_of(*old(string_table), x) is Some ==> offset_of(*final(string_table), x) == offset_of(*old(string_table), x),
 {
-""", suffix="\n}\n")
+    let ghost t0_ = *string_table; let ghost cc0_ = *current_class;
+""", suffix="\n    proof { lemma_acip_ext(abs_cip(*current_class), w_header(*string_table, abs_cip(cc0_), key, file_name)); }\n}\n")
     # ---------------- final flush after the loop: the last class is stored like every other one ----------------
     mfl = [m for m in re.finditer(r"if !current_class\.name\.is_empty\(\) \{", wf.orig)]
     flush_found = len(mfl) >= 2
@@ -286,7 +402,9 @@ pub open spec fn all_wf<'d>(m: Map<&'d str, ClassInProgress<'d>>) -> bool { fora
         cw.replace_span(a2 - off, b2 - off, "current_class = region_writer_class_arm(&mut classes, current_class, &mut string_table, original, obfuscated);", "R11")
         cw.replace_span(a3 - off, b3 - off, "region_writer_header_arm(&mut current_class, &mut string_table, key, file_name);", "R11")
         if flush_found:
-            cw.replace_span(fa - off, fb - off, "region_writer_final_flush(&mut classes, current_class);", "R11")
+            cw.replace_span(fa - off, fb - off, """let ghost classes0 = bmap(classes); let ghost cc0 = current_class;
+        region_writer_final_flush(&mut classes, current_class);
+        proof { if cc0.name@.len() > 0 { lemma_abs_done_insert(classes0, cc0.name, cc0); } }""", "R11")
         cw.replace_all_re(r"StringTable::new\(\)", "shim_string_table_new()", "R2", why="watto::StringTable::new behind a shim (abstract table)")
         cw.replace_all_re(r"BTreeMap::new\(\)", "shim_btree_new()", "R2", why="BTreeMap::new: empty map view")
         cw.replace_all_re(r"ClassInProgress::default\(\)", "shim_default_cip()", "R2", why="derived Default for ClassInProgress (same shim as `..Default::default()` in the Class arm)")
@@ -299,7 +417,8 @@ pub open spec fn all_wf<'d>(m: Map<&'d str, ClassInProgress<'d>>) -> bool { fora
         cw.insert_at(mr.end(), """
         let ghost recs = ok_records(*%s);
         let ghost mut n: int = 0;
-        proof { assert(recs.skip(0) == recs); }""" % mpg)
+        let ghost mut ts: Seq<StringTable> = seq![string_table];
+        proof { assert(recs.skip(0) == recs); lemma_abs_done_empty(); lemma_acip_ext(abs_cip(current_class), fresh_cip()); }""" % mpg)
         lp = cw.loops()
         if not lp or lp[0][0] != "while":
             raise AnchorLost("write: record loop not found")
@@ -312,23 +431,42 @@ pub open spec fn all_wf<'d>(m: Map<&'d str, ClassInProgress<'d>>) -> bool { fora
                 0 <= n <= recs.len(), recs.len() < u32::MAX, pk_rest(%s) == recs.skip(n),
                 /*@L:every_finished_class_has_counts_equal_to_its_records:C09,C02*/ all_wf(bmap(classes)) && wf_cip(current_class),
                 current_class.class.members_len <= n, current_class.class.members_by_params_len <= n,
+                tables_ok(ts, recs, n), ts[n] == string_table,
+                /*@L:state_after_n_records_is_the_abstract_run:C02,C03,C04,C09*/ abs_done(bmap(classes)) == w_run(ts, recs, n).done && abs_cip(current_class) == w_run(ts, recs, n).cur,
             ensures n == recs.len(),
             decreases recs.len() - n,""" % recs,
                              after_next="""            proof {
+                assert(record == recs[n]);
                 assert(recs.skip(n).drop_first() == recs.skip(n + 1));
                 n = n + 1;
+                assert(pk_rest(%s).len() > 0 ==> pk_rest(%s)[0] == recs[n]);
             }
-""")
-        u.emit(cw, prefix="""fn region_write_collect<'d>(mapping: &ProguardMapping<'d>) -> (ret: (StringTable, BTreeMap<&'d str, ClassInProgress<'d>>))
+            let ghost t_before = string_table; let ghost classes0 = bmap(classes); let ghost cc0 = current_class;
+""" % (recs, recs))
+        # end of the loop body: record the table, re-establish the abstract invariant
+        lb = cw.loops()[0]
+        cw.insert_at(lb[3], """    proof {
+                if cc0.name@.len() > 0 { lemma_abs_done_insert(classes0, cc0.name, cc0); }
+                assert(table_grew(t_before, string_table, strings_of(record)));
+                lemma_tables_push(ts, string_table, recs, n);
+                lemma_run_prefix(ts, string_table, recs, n - 1);
+                ts = ts.push(string_table);
+            }
+        """)
+        u.emit(cw, prefix="""fn region_write_collect<'d>(mapping: &ProguardMapping<'d>) -> (ret: (StringTable, BTreeMap<&'d str, ClassInProgress<'d>>, Ghost<Seq<StringTable>>))
     requires
         // representable domain: fewer than 2^32 records (the per-class u32 counters cannot overflow)
         ok_records(*mapping).len() < u32::MAX,
     ensures
         /*@L:every_class_handed_to_the_tail_has_counts_equal_to_its_records:C09,C02*/ forall|i: int| 0 <= i < vals(ret.1).len() ==> wf_cip(#[trigger] vals(ret.1)[i]),
+        // ret.2: the string table after 0, 1, .., #records records (ghost); every record's strings are interned when it is processed and never move
+        tables_ok(ret.2@, ok_records(*mapping), ok_records(*mapping).len() as int) && ret.2@.last() == ret.0,
+        /*@L:collected_classes_are_the_abstract_fold_of_the_record_stream:C02,C03,C04,C09*/ ({ let recs = ok_records(*mapping); let s = w_run(ret.2@, recs, recs.len() as int);
+            abs_done(bmap(ret.1)) == w_flush(s.done, s.cur) }),
 {
 """, suffix="""
     proof { axiom_vals_in_bmap(classes); }
-    (string_table, classes)
+    (string_table, classes, Ghost(ts))
 }
 """)
     u.raw(FOOTER, "footer")
